@@ -22,6 +22,10 @@ structure TS where
 
 inductive TSOp
   | construct (cls args : Nat)
+  /-- a construction whose `__init__` would RAISE: a hit returns the instance as always (no
+      `__init__` runs); a miss propagates the exception out of `super().__call__` before anything
+      is stored, so nothing is registered and the half-built object is never seen again -/
+  | constructFail (cls args : Nat)
   | clear (cls : Option Nat)          -- `clear_true_singleton(cls)`; `none` = clear all
   deriving Repr, DecidableEq
 
@@ -38,6 +42,10 @@ def TS.step (s : TS) : TSOp → TS × Option Nat
       -- `super().__call__(*args, **kwargs)` : new object, `__init__` runs once with these args
       ({ inst := s.inst ++ [(c, s.next)], next := s.next + 1, inits := s.inits ++ [(s.next, c, a)] },
        some s.next)
+  | .constructFail c _ =>
+    match lookup c s.inst with
+    | some i => (s, some i)
+    | none => (s, none)                       -- the exception reaches the caller
   | .clear (some c) => ({ s with inst := s.inst.filter (fun p => p.1 != c) }, none)
   | .clear none => ({ s with inst := [] }, none)
 
@@ -64,6 +72,7 @@ structure SS where
 
 inductive SSOp
   | construct (cls args : Nat)
+  | constructFail (cls args : Nat)      -- `__init__` would raise (see `TSOp.constructFail`)
   | addMapping (inst args : Nat)
   | drop (cls args : Nat)
   | check (cls args : Nat)
@@ -76,6 +85,7 @@ inductive SSAns
   | none
   | insts (l : List Nat)
   | keyError
+  | raised         -- the exception of `__init__` reached the caller
   | ok
   | bad            -- ill-formed operation (add_mapping of an object that does not exist): rejected
   deriving Repr, DecidableEq
@@ -106,6 +116,11 @@ def SS.step (cfg : SSCfg) (s : SS) : SSOp → SS × SSAns
          instCls := upd s.instCls s.next c
          next := s.next + 1
          inits := s.inits ++ [(s.next, c, a)] }, .inst s.next)
+  | .constructFail c a =>
+    let m := cfg.mapOf c
+    match slookup (c, cfg.keyOf m a) (s.maps m) with
+    | some i => (s, .inst i)
+    | Option.none => (s, .raised)
   | .addMapping i a =>
     if i ≥ s.next then (s, .bad) else
     let c := s.instCls i
